@@ -10,7 +10,8 @@ func c01Opts(c *rt.C) EngOpt {
 	r := c.Rng
 	o := EngOpt{
 		Mem:          memModes()[c.Index%3],
-		KV:           (c.Index/3)%2 == 1,
+		KV:           (c.Index/3)%3 == 1,
+		Rev:          (c.Index/3)%3 == 2,
 		NWriters:     pick(r, 2, 3, 4, 8),
 		NKeys:        pick(r, 16, 32, 64, 128, 512),
 		Phases:       10 + r.Intn(16),
